@@ -261,4 +261,39 @@ def tempsLeft (ops : List Op) : Nat × Nat :=
 
 def targetWritten (ops : List Op) : Bool := ops.contains .copyBack
 
+/-! ### Completion-line conflict
+
+`PluginManager.__completed_file_fix_mode_middle` raises `BadPluginError` ("attempted to rewrite a completion line") when a
+SECOND fix-bound rule sets a completion line in the same pass.  `completedG` above describes the passes in which at most one
+rule does (the later appender would win); the functions below say exactly when the real pass ends in that error instead, so that
+the model's domain is a computed predicate and not an assumption (found by the thorough fix-mode correspondence: two probe rules
+that both add the final newline). -/
+
+/-- Number of fix-bound rules whose `completed_file` sets a completion line, given `last_line_fixed`. -/
+def appenders (k : Nat) (rs : List XRule) (last : Option String) : Nat :=
+  (rs.filter fun r => r.hasDone && bindOf k r == some .fix && (r.doneFix last).isSome).length
+
+/-- Does the pass at level `k` end in the completion-line error? -/
+def passConflict (k : Nat) (rs : List XRule) (doc : String) (tokFixed : Option String) : Bool :=
+  let o := linesLoop k rs ⟨"", none, 0, [], []⟩ 1 (splitLines (tokFixed.getD doc))
+  decide (2 ≤ appenders k rs o.lastFixed)
+
+/-- First pass of `fixLoop` that ends in the error: its level and the content of the target before that pass (earlier passes
+have completed and written back). -/
+def fixConflict (rs : List XRule) (toks : String → List String) (tokFix : Nat → String → Option String) :
+    Nat → Nat → String → Option (Nat × String)
+  | 0, _, _ => none
+  | fuel + 1, k, d =>
+    if passConflict k rs d (tokFix k d) then some (k, d) else
+    let p := pass k rs toks d (tokFix k d)
+    match minOpt ((p.trig.filterMap (levelOf rs)).filter (· > k)) with
+    | none => none
+    | some k' => fixConflict rs toks tokFix fuel k' p.content
+
+def fileConflict (rs : List XRule) (toks : String → List String) (tokFix : Nat → String → Option String)
+    (doc : String) : Option (Nat × String) :=
+  match minOpt ((rs.filter (·.fixes)).map (·.level)) with
+  | none => none
+  | some k => fixConflict rs toks tokFix (rs.length + 1) k doc
+
 end Verif.Model.FixSched
